@@ -13,6 +13,9 @@ R13.6 a write that is not refused reaches the storage: in the _write of each sto
 R13.7 within one public write of DataStoreDirectory no helper that unlinks files of a store table (md5, not_completed, log) runs after a helper that wrote ...
 R13.8 DataStoreSqlite keeps two member lists over one table whose rows can change class (the UPDATE branch rewrites is_completed): each public record write ...
 R13.9 one checksum per record: in DataStoreDirectory._write the checksum file's path depends on every parameter the data file's path depends on (the table ...
+
+Added later in build rounds 2-3 (see DESIGN.md section 3, round-2/3 table):
+R13.10 the member lists of a store are lazy caches (filled from the directory / table the first time they are asked for, and only while empty): a write ...
 """
 
 from __future__ import annotations
